@@ -661,7 +661,11 @@ func divisorFromCallers(c *Ctx, fn *ssa.Function, div ssa.Value, depth int) bool
 		}
 	}
 	pp, ok := valueProv(div, provEnv{}).root.(*ssa.Parameter)
-	if !ok || len(valueProv(div, provEnv{}).fields) != 0 {
+	if !ok {
+		return false
+	}
+	viaFields := len(valueProv(div, provEnv{}).fields) != 0 // a field of a struct parameter (r.buf of a ring helper type)
+	if viaFields && !lenOf {
 		return false
 	}
 	pi := -1
@@ -679,7 +683,15 @@ func divisorFromCallers(c *Ctx, fn *ssa.Function, div ssa.Value, depth int) bool
 			return false
 		}
 		arg := site.Call.Args[pi]
-		if lenOf {
+		if viaFields {
+			// the field as the caller set it: a local struct whose field was given make([]T, n)
+			pv := valueProv(div, provEnv{chain: []*ssa.Call{site}})
+			ms, ok := pv.root.(*ssa.MakeSlice)
+			if !ok || len(pv.fields) != 0 {
+				return false
+			}
+			arg = ms.Len
+		} else if lenOf {
 			// len(param): the argument must be a slice of provably non-zero length: make([]T, n) with n non-zero at the site
 			ms, ok := valueProv(arg, provEnv{}).root.(*ssa.MakeSlice)
 			if !ok {
